@@ -105,4 +105,18 @@ PROPS = {
         "assumptions": ["shares the harness run of C03 (wire.annotate and wire.roundtrip ops)"],
         "partial": ["annotate_roundtrip for all well-typed values is not yet a theorem; proved: the allowances, rejection of the named near-miss kinds, leaf round trips"],
     },
+    "C15": {
+        "profiles": ["debug"],
+        "rule": "hash: every ASCII string of length <= 2 (exhaustive), two-byte UTF-8 scalars, random strings <= 64 scalars over the full Unicode range; labels: lists of 0-5 labels mixing names (identifiers, keywords, arbitrary Unicode, "
+                "numeric-looking names), ids (small, 2^31, 2^32-1), the numeric spelling of a name already present, repeated labels and pairs of distinct names with equal hash found by enumeration; "
+                "each list goes through the sort-and-check step of four entry points (check_unique as expanded by record!/variant!, the type parser for record and variant, the value parser) and pairs through Label eq/cmp/hash; "
+                "lists of >= 2 labels are non-trivial; distinct = distinct request lines",
+        "trusted": [
+            "both copies of idl_hash are shape-checked and their multiplier extracted by the translator; the derive macro itself runs at compile time and is exercised through the harness' derived corpus types (C01) rather than here",
+            "the sort is modelled as an insertion sort (only the sorted keys are observable by check_unique)",
+            "the binary header's duplicate/unsorted-id rejection is exercised in C02 (hostile headers); its predicate is Labels.strictlyAscending, proved equivalent to sorted-and-duplicate-free here",
+        ],
+        "assumptions": ["names reach the text parsers as fully hex-escaped quoted strings, so the escape handling of C11 is not involved"],
+        "partial": [],
+    },
 }
